@@ -4,7 +4,8 @@ import glob, json, re, subprocess
 p = '/verif/DESIGN.md'; s = open(p).read()
 rounds = {}
 for f in sorted(glob.glob('/verif/seeded/*/meta.json')):
-    m = json.load(open(f)); r = m["seed"][:3]
+    m = json.load(open(f)); r = m["seed"].split("-")[0]
+    r = "sj10" if r == "sk10" else r          # round 10 was run in two time-boxed halves of ten properties each
     rounds.setdefault(r, [0, 0]); rounds[r][1] += 1
     if m.get("result", "").lower().startswith("caught"):
         rounds[r][0] += 1
